@@ -92,6 +92,14 @@ def gen_job(verif_seed, tier, index):
                 job["ligands_all_built"] = True
             else:
                 job["opts"].pop("cycles", None) if job.get("ligand_on_cyclic_host") else None
+        if g.random() < 0.05:
+            # few trial vectors per step (-mir 5) and a long tape of scattered step failures: one attempt goes through
+            # many fail / rewind / re-place cycles (far more steps than residues)
+            from simkit.core import draw_lane
+            job["opts"]["maxiter_random"] = 5
+            job["opts"]["nrewind"] = 2
+            job["tape"]["step"] = draw_lane(st.tape, 600, 0.45, False)     # ~0.1 residues of net progress per step
+            job["long_rewind_tape"] = True
         if g.random() < 0.1:
             job["rerun_build"] = True        # BuildSystem.run_system called a second time on the complete system
         job["mode"] = "sampled"
